@@ -147,6 +147,29 @@ fn main() {
             sp.enforce_bounds(&mut s);
             println!("enforced value {} satisfies={}", s.value, sp.satisfies_bounds(&s));
         }
+        "c11_so2_pi" => {
+            // bounds whose upper end is exactly PI (the doc example of SO2StateSpace::new)
+            let sp = SO2StateSpace::new(Some((0.0, std::f64::consts::PI))).unwrap();
+            for v in [3.5_f64, -3.0, 3.2, std::f64::consts::PI] {
+                let mut s = SO2State { value: v };
+                sp.enforce_bounds(&mut s);
+                let ok1 = sp.satisfies_bounds(&s);
+                let before = s.value;
+                sp.enforce_bounds(&mut s);
+                println!("value {} -> enforced {} satisfies={} ; enforced again {} (idempotent={})", v, before, ok1, s.value, before == s.value);
+            }
+        }
+        "c11_so2_round" => {
+            // the check canonicalises with (v + PI).rem_euclid(2 PI) - PI, which is not the identity on floats
+            for (lo, hi) in [(-1.0_f64, 0.1_f64), (-0.3, 1.0), (-2.0, -0.3)] {
+                let sp = SO2StateSpace::new(Some((lo, hi))).unwrap();
+                for v in [2.0_f64, -2.5, 3.0, -3.0] {
+                    let mut s = SO2State { value: v };
+                    sp.enforce_bounds(&mut s);
+                    println!("bounds ({}, {}) value {} -> enforced {} satisfies={}", lo, hi, v, s.value, sp.satisfies_bounds(&s));
+                }
+            }
+        }
         "c12_so2" => {
             let r = SO2StateSpace::new(Some((4.0, 5.0)));
             match r { Ok(sp) => { println!("accepted, bounds {:?}", sp.bounds);
